@@ -662,8 +662,8 @@ def _phase1(ctx: Ctx, rng: Rng) -> List[dict]:
         big = name.startswith("uc7")
         for group in cp.GROUPS:
             units.append({"kind": "pairs", "label": name, "scenario": name, "group": group, "rng": r_pairs.fork(name + group),
-                          "thorough": ctx.thorough and not big, "dedupe": True, "same_cap": ctx.scale(20, 10 ** 9),
-                          "cross_cap": ctx.scale(20, 40 if big else 400), "triple_cap": ctx.scale(0, 20 if big else 150), "max_steps": 40,
+                          "thorough": ctx.thorough and not big, "dedupe": True, "same_cap": ctx.scale(12, 10 ** 9),
+                          "cross_cap": ctx.scale(12, 40 if big else 400), "triple_cap": ctx.scale(0, 20 if big else 150), "max_steps": 40,
                           "episode_cap": (6 if big else None) if ctx.thorough else None,
                           "weight": {"application": 25, "service": 12}.get(group, 5) * (3 if ctx.thorough else 1)})
         for group, io_on in (("every", True), ("optional", False)):
